@@ -63,6 +63,19 @@ func main() {
 			c.Run(r)
 		}
 		os.Exit(r.Finish())
+	case "c18worker":
+		var i, n int
+		fmt.Sscan(os.Args[2], &i)
+		fmt.Sscan(os.Args[3], &n)
+		checks.C18Worker(i, n, os.Args[4])
+	case "c18debug":
+		checks.C18Debug()
+	case "c18race":
+		rounds := 40
+		if len(os.Args) > 2 {
+			fmt.Sscan(os.Args[2], &rounds)
+		}
+		checks.C18Race(rounds)
 	case "replay":
 		if len(os.Args) < 3 {
 			usage()
